@@ -1384,6 +1384,225 @@ def r13_params_per_request(run):
     from . import c06 as _c06
     _c06.r8_ctor_definite_assignment(_OnlyAbout(run, _PARAM_STATE))
 
+# ---------------------------------------------------------------------------
+# R15 the "nothing to decode" shortcut
+# ---------------------------------------------------------------------------
+
+# application/x-www-form-urlencoded: the two characters decode() rewrites (documented: percent-decoding, and '+' -> space
+# while unquote_plus is left at its default).  Cross-checked against decode() on every run: each must be a character
+# constant decode() works with, and '+' counts only while the default of unquote_plus is true.
+DECODER_REWRITES = ('%', '+')
+
+
+def _decoder_sensitive_chars(p) -> list:
+    dec = p.func(DECODE)
+    consts = set()
+    for n in walk_no_nested(dec.node):
+        if isinstance(n, ast.Constant) and isinstance(n.value, (str, bytes)) and len(n.value) == 1:
+            consts.add(n.value if isinstance(n.value, str) else n.value.decode('latin1'))
+    out = []
+    for c in DECODER_REWRITES:
+        if c not in consts:
+            raise UnknownIdiom('%s: no character constant %r (how does it decode %r?)' % (DECODE, c, c))
+        out.append(c)
+    a = dec.node.args
+    names = [x.arg for x in a.posonlyargs + a.args]
+    if 'unquote_plus' not in names:
+        raise AnchorError('%s: no unquote_plus parameter' % DECODE)
+    k = names.index('unquote_plus') - (len(names) - len(a.defaults))
+    if k < 0:
+        raise UnknownIdiom('%s: unquote_plus has no default' % DECODE)
+    d = p.fold(dec.module, a.defaults[k], None, None)
+    if not isinstance(d, bool):
+        raise UnknownIdiom('%s: default of unquote_plus is %s' % (DECODE, short(a.defaults[k], 40)))
+    if not d:
+        out.remove('+')
+    return out
+
+
+def _eval3(e, cell, supers, flags, depth=0):
+    """Three-valued truth of a guard, knowing only that the value under consideration contains exactly the characters
+    `cell` of the decoder-sensitive set: `'c' in X` for a superstring X of the value is True when c is in the cell and
+    unknown otherwise (X may contain c elsewhere); fast-path flags are read through their definition."""
+    if isinstance(e, ast.Constant):
+        return bool(e.value)
+    if isinstance(e, ast.UnaryOp) and isinstance(e.op, ast.Not):
+        v = _eval3(e.operand, cell, supers, flags, depth)
+        return None if v is None else (not v)
+    if isinstance(e, ast.BoolOp):
+        vals = [_eval3(v, cell, supers, flags, depth) for v in e.values]
+        if isinstance(e.op, ast.And):
+            return False if any(v is False for v in vals) else True if all(v is True for v in vals) else None
+        return True if any(v is True for v in vals) else False if all(v is False for v in vals) else None
+    if isinstance(e, ast.Compare) and len(e.ops) == 1 and isinstance(e.ops[0], (ast.In, ast.NotIn)) \
+            and isinstance(e.left, ast.Constant) and isinstance(e.left.value, str) and len(e.left.value) == 1 \
+            and isinstance(e.comparators[0], ast.Name) and e.comparators[0].id in supers:
+        if e.left.value in cell:
+            return isinstance(e.ops[0], ast.In)
+        return None
+    if isinstance(e, ast.Name) and e.id in flags:
+        if depth > 4:
+            raise UnknownIdiom('%s: fast-path flag %s is defined through too many steps' % (PQS, e.id))
+        return _eval3(flags[e.id], cell, supers, flags, depth + 1)
+    if isinstance(e, ast.NamedExpr):
+        return _eval3(e.value, cell, supers, flags, depth)
+    return None
+
+
+def r15_undecoded_shortcut(run):
+    """A name or value may be stored as it stands in the query string only when decode() would return it unchanged,
+    i.e. when it contains neither of the characters decode() rewrites ('%' and, with unquote_plus at its default, '+').
+    Every use of the raw name / value of a field other than decoding it, testing it for blankness / a comma or
+    comma-splitting it (R1) must be unreachable from the partition unless a guard on the way proves the absence of
+    BOTH characters: the guards (inline tests or a flag such as `is_encoded`, read through its definition) are
+    evaluated in three-valued logic over the cells {has '%'} x {has '+'} of the value; `'c' in X` counts for the whole
+    query string, the field and the value itself (absent from a superstring = absent from the value).
+    W: ?a=b+c -> {'a': 'b+c'} instead of 'b c' when the flag forgets '+'."""
+    p = run.project
+    f = p.func(PQS)
+    cfg = cfg_of(f, p)
+    run.use_cfg(cfg)
+    params = f.params()
+    if not params:
+        raise AnchorError('%s: no query string parameter' % PQS)
+    qs = params[0]
+    chars = _decoder_sensitive_chars(p)
+    run.use(p.func(DECODE))
+    part = None
+    for n in walk_no_nested(f.node):
+        if (isinstance(n, ast.Assign) and isinstance(n.value, ast.Call) and isinstance(n.value.func, ast.Attribute)
+                and n.value.func.attr in ('partition', 'rpartition') and n.value.args
+                and isinstance(n.value.args[0], ast.Constant) and n.value.args[0].value == '='):
+            part = n
+    if part is None or not (isinstance(part.targets[0], ast.Tuple) and len(part.targets[0].elts) == 3
+                            and all(isinstance(x, ast.Name) for x in part.targets[0].elts)):
+        raise AnchorError('%s: the name/value partition on "=" was not found' % PQS)
+    kname, _sep, vname = [x.id for x in part.targets[0].elts]
+    field = part.value.func.value.id if isinstance(part.value.func.value, ast.Name) else None
+    part_nid = node_of(cfg, part)
+    par = _parent_map(f.node)
+    rd = ReachingDefs(cfg)
+
+    # fast-path flags: locals bound once to a boolean combination of character tests
+    binds: Dict[str, list] = {}
+    for n in cfg.live_nodes():
+        for d in node_defs(n):
+            binds.setdefault(d.name, []).append(d)
+    supers_all = {qs} | ({field} if field else set())
+
+    def mentions_super(e) -> bool:
+        return any(isinstance(x, ast.Name) and x.id in supers_all for x in ast.walk(e))
+
+    def readable(e) -> bool:
+        if isinstance(e, ast.Constant):
+            return True
+        if isinstance(e, ast.UnaryOp) and isinstance(e.op, ast.Not):
+            return readable(e.operand)
+        if isinstance(e, ast.BoolOp):
+            return all(readable(v) for v in e.values)
+        if isinstance(e, ast.Name):
+            return e.id in flags or not mentions_super(e)
+        if isinstance(e, ast.Compare) and len(e.ops) == 1 and isinstance(e.ops[0], (ast.In, ast.NotIn)) and isinstance(e.left, ast.Constant) \
+                and isinstance(e.comparators[0], ast.Name):
+            return True
+        return not mentions_super(e)
+
+    flags: Dict[str, ast.AST] = {}
+    cands: Dict[str, ast.AST] = {}
+    for nm, ds in binds.items():
+        if nm in params or nm in (kname, vname, field) or len(ds) != 1 or ds[0].value is None or ds[0].how != 'assign':
+            continue
+        v = ds[0].value
+        if isinstance(v, (ast.Compare, ast.BoolOp, ast.Name)) or (isinstance(v, ast.UnaryOp) and isinstance(v.op, ast.Not)) \
+                or (isinstance(v, ast.Constant) and isinstance(v.value, bool)) \
+                or (isinstance(v, ast.Call) and isinstance(v.func, ast.Name) and v.func.id in ('any', 'all', 'bool')):
+            cands[nm] = v
+    grew = True
+    while grew:
+        grew = False
+        for nm, v in cands.items():
+            if nm in flags:
+                continue
+            if isinstance(v, ast.Constant) or mentions_super(v) or any(isinstance(x, ast.Name) and x.id in flags for x in ast.walk(v)):
+                flags[nm] = v
+                grew = True
+    for nm, v in flags.items():
+        if not readable(v):
+            raise UnknownIdiom('%s: the fast-path flag %s = %s is not a boolean combination of character tests' % (PQS, nm, short(v, 80)))
+    for n in cfg.live_nodes():
+        if n.kind == 'test' and n.ast is not None and mentions_super(n.ast) and not readable(n.ast):
+            raise UnknownIdiom('%s: guard %s reads the query string in a way this rule has no model for' % (PQS, short(n.ast, 80)))
+
+    dirty = [frozenset(c) for k in range(1, len(chars) + 1) for c in itertools.combinations(chars, k)]
+
+    def is_decode(e) -> bool:
+        return isinstance(e, ast.Call) and resolves_to(p, f, e, DECODE)
+
+    def harmless(use: ast.Name) -> bool:
+        up = par.get(id(use))
+        if isinstance(up, ast.Call) and is_decode(up) and use in up.args:
+            if up.keywords or len(up.args) != 1:
+                raise UnknownIdiom('%s: decode() called with options: %s' % (PQS, short(up, 60)))
+            return True
+        if isinstance(up, ast.Attribute) and isinstance(par.get(id(up)), ast.Call) and par.get(id(up)).func is up and up.attr == 'split':
+            return True   # the pieces are R1's business
+        if isinstance(up, ast.UnaryOp) and isinstance(up.op, ast.Not):
+            return True
+        if isinstance(up, ast.Compare) and len(up.ops) == 1 and isinstance(up.ops[0], (ast.In, ast.NotIn)) and up.comparators[0] is use \
+                and isinstance(up.left, ast.Constant):
+            return True
+        if isinstance(up, (ast.If, ast.While, ast.IfExp)) and up.test is use:
+            return True   # truthiness
+        if isinstance(up, ast.BoolOp) and cfg.node(_use_node(cfg, use)).kind == 'test':
+            return True   # operand of a branch condition
+        return False
+
+    n_ob = 0
+    for nm in (kname, vname):
+        supers = supers_all | {nm}
+        clean_edges = set()
+        for n in cfg.live_nodes():
+            if n.kind != 'test' or n.ast is None:
+                continue
+            for (y, l) in cfg.succ[n.id]:
+                if l not in ('T', 'F'):
+                    continue
+                want = (l == 'T')
+                if all(_eval3(n.ast, cell, supers, flags) is (not want) for cell in dirty):
+                    clean_edges.add((n.id, y, l))
+        barriers = set()
+        for n in cfg.live_nodes():
+            for d in node_defs(n):
+                if d.name != nm or n.id == part_nid:
+                    continue
+                if d.value is not None and is_decode(d.value) and d.value.args and _is_name(d.value.args[0], nm):
+                    barriers.add(n.id)
+                else:
+                    raise UnknownIdiom('%s: %s is rebound by %s' % (PQS, nm, short(d.stmt, 80)))
+        seen_nodes = set()
+        for use in walk_no_nested(f.node):
+            if not (isinstance(use, ast.Name) and use.id == nm and isinstance(use.ctx, ast.Load)):
+                continue
+            unid = _use_node(cfg, use)
+            if not any(d.stmt is part for d in rd.at(unid, nm)):
+                continue
+            if harmless(use) or (unid, nm) in seen_nodes:
+                continue
+            seen_nodes.add((unid, nm))
+            starts = [y for (y, l) in cfg.succ[part_nid] if flow.no_exc(part_nid, y, l)]
+            path = flow.find_path(cfg, starts, [unid], avoid_nodes=(barriers | {part_nid}) - {unid}, avoid_edges=clean_edges, edge_filter=flow.no_exc)
+            un = cfg.node(unid)
+            n_ob += 1
+            run.check(path is None, 'the undecoded %s of a field reaches this use only past a guard that proves it contains none of %s '
+                      '(the characters decode() rewrites)' % ('name' if nm == kname else 'value', ' '.join(repr(c) for c in chars)),
+                      f, 'raw %s in %s' % (nm, short(un.ast if un.ast is not None else use, 100)), where='%s:%s' % (f.file, un.lineno),
+                      witness=(flow.describe_path(cfg, [part_nid] + path)
+                               + ['%s = %s' % (k_, short(v_, 100)) for k_, v_ in sorted(flags.items())]) if path else None,
+                      runtime_witness="?a=b+c parsed as {'a': 'b+c'} (or ?a=b%20c as 'b%20c') instead of 'b c'")
+    if n_ob == 0:
+        run.ok('no use of an undecoded name or value outside decode() / blank tests / the comma split: everything is decoded', f.loc(), PQS)
+    run.sample({'decoder-sensitive characters': chars, 'fast-path flags': {k_: short(v_, 100) for k_, v_ in flags.items()}})
+
 
 def check(run):
     run.assume('the pure-Python parse_query_string/decode are decided; the Cython twin (falcon/cyutil/uri.pyx) replaces them when importable and is not analysed')
@@ -1418,3 +1637,4 @@ def check(run):
     from . import c12 as _c12
 
     run.rule('R14', _c12._safe(_c12.r2_error_mapping), 'the JSON handler maps every loads() failure to the malformed-media error the json getter converts (shared with C12 R2)', floor=9)
+    run.rule('R15', r15_undecoded_shortcut, "parse_query_string stores a name / value undecoded only behind a guard that excludes both '%' and '+'", floor=1)
